@@ -204,6 +204,12 @@ def run(ctx):
                  ctx.construct(ph, extra='unfinished sub-workflows only'),
                  'recursion into sub-workflows is not limited to unfinished '
                  'ones', ctx.loc(ph))
+    shared.subworkflow_recursion_unrestricted(
+        ctx, r3, 'mistral.engine.workflow_handler.pause_workflow',
+        'pause_workflow')
+    shared.subworkflow_recursion_unrestricted(
+        ctx, r3, 'mistral.engine.workflow_handler.resume_workflow',
+        'resume_workflow')
     for name in ('pause', 'resume'):
         f = prog.func(WF + '.' + name)
         cfg = ctx.cfg(f)
